@@ -46,6 +46,9 @@ def jMut (j : Json) : Except String Op := do
   | [.str "add_readout", n, f] => pure (.add_readout (← jStr n) (← jFn f))
   | [.str "remove_readout", n] => pure (.remove_readout (← jStr n))
   | [.str "add_surrogate", n, su] => pure (.add_surrogate (← jStr n) (← jSur su))
+  | [.str "add_surrogate", n, su, a, o, st] =>
+      pure (.add_surrogate_kw (← jStr n) (← jSur su)
+        { args := ← jOpt (jList jStr) a, outs := ← jOpt (jList jStr) o, stoich := ← jOpt (jAssoc jStoich) st })
   | [.str "update_surrogate", n, su, a, o, st] =>
       pure (.update_surrogate (← jStr n)
         { sur := ← jOpt jSur su, args := ← jOpt (jList jStr) a, outs := ← jOpt (jList jStr) o,
@@ -56,13 +59,42 @@ def jMut (j : Json) : Except String Op := do
   | [.str "remove_data", n] => pure (.remove_data (← jStr n))
   | _ => .error s!"bad op {j.compress}"
 
+def jFlags (j : Json) : Except String Flags := do
+  match ← jList jBool j with
+  | [a, b, c, d, e, f, g, h, i] =>
+    pure { time := a, vars := b, pars := c, dpars := d, dvars := e, rxns := f, survars := g, surfluxes := h,
+           readouts := i }
+  | _ => .error s!"bad flags {j.compress}"
+
+def jNameQ (j : Json) : Except String NameQ := do
+  match ← jStr j with
+  | "vars" => pure .vars
+  | "pars" => pure .pars
+  | "rxns" => pure .rxns
+  | "readouts" => pure .readouts
+  | "surouts" => pure (.surOuts true)
+  | "survars" => pure (.surOuts false)
+  | "surrxns" => pure .surRxns
+  | "unused" => pure .unusedPars
+  | x => .error s!"bad names query {x}"
+
+def jRows (j : Json) : Except String (List (Rat × List Rat)) := jList (jPair jRat (jList jRat)) j
+
 def jQuery (j : Json) : Except String Query := do
   match ← jArr j with
+  | [.str "q", .str "names", w] => pure (.names (← jNameQ w))
+  | [.str "q", .str "argnames", fl] => pure (.argNames (← jFlags fl))
+  | [.str "q", .str "argsf", v, t, fl] => pure (.args (← jOpt (jList jRat) v) (← jRat t) (← jFlags fl))
+  | [.str "q", .str "rawstoich", x] => pure (.rawStoich (← jStr x))
+  | [.str "q", .str "argstc", rows, fl] => pure (.argsTC (← jRows rows) (← jFlags fl))
+  | [.str "q", .str "fluxestc", rows] => pure (.fluxesTC (← jRows rows))
+  | [.str "q", .str "rhstc", rows] => pure (.rhsTC (← jRows rows))
+  | [.str "q", .str "eq"] => pure .eqFresh
   | [.str "q", .str "init"] => pure .init
   | [.str "q", .str "pvals"] => pure .pvals
   | [.str "q", .str "classes"] => pure .classes
-  | [.str "q", .str "args", v, t] => pure (.args (← jOpt (jList jRat) v) (← jRat t) false)
-  | [.str "q", .str "argsro", v, t] => pure (.args (← jOpt (jList jRat) v) (← jRat t) true)
+  | [.str "q", .str "args", v, t] => pure (.args (← jOpt (jList jRat) v) (← jRat t) {})
+  | [.str "q", .str "argsro", v, t] => pure (.args (← jOpt (jList jRat) v) (← jRat t) { readouts := true })
   | [.str "q", .str "rhs", v, t] => pure (.rhs (← jOpt (jList jRat) v) (← jRat t))
   | [.str "q", .str "fluxes", v, t] => pure (.fluxes (← jOpt (jList jRat) v) (← jRat t))
   | [.str "q", .str "call", t, v] => pure (.call (← jRat t) (← jList jRat v))
@@ -74,6 +106,7 @@ def jQuery (j : Json) : Except String Query := do
 def jHOp (j : Json) : Except String HOp := do
   match ← jArr j with
   | .str "q" :: _ => pure (.ask (← jQuery j))
+  | [.str "fork"] => pure .fork
   | _ => pure (.edit (← jMut j))
 
 def errClass : Err → Json
@@ -95,12 +128,19 @@ def ansJ (q : Query) : Except Err Ans → Json
   | .error e => Json.mkObj [("err", errJ e)]
   | .ok (.assoc l) =>
     let l := match q with
-      | .pvals | .args .. => sortNames l
+      | .pvals => sortNames l
+      | .args _ _ fl => if fl == {} || fl == { readouts := true } then sortNames l else l
       | _ => l
     Json.mkObj [("ok", assocJ ratJ l)]
   | .ok (.rats l) => Json.mkObj [("ok", ratsJ l)]
   | .ok (.classes p v) => Json.mkObj [("ok", Json.arr #[strsJ p, strsJ v])]
   | .ok (.table l) => Json.mkObj [("ok", assocJ (assocJ ratJ) l)]
+  | .ok (.names l) => Json.mkObj [("ok", strsJ l)]
+  | .ok (.coefs l) => Json.mkObj [("ok", assocJ (fun (c : Coef) => match c with
+      | .num v => Json.mkObj [("c", ratJ v)]
+      | .dyn f => Json.mkObj [("args", strsJ f.args)]) l)]
+  | .ok (.rows l) => Json.mkObj [("ok", .arr (l.map (assocJ ratJ)).toArray)]
+  | .ok (.bool b) => Json.mkObj [("ok", .bool b)]
 
 def keysJ (c : Content) : Json :=
   .arr #[strsJ (omKeys c.vars), strsJ (omKeys c.pars), strsJ (omKeys c.derived), strsJ (omKeys c.readouts),
@@ -122,6 +162,7 @@ def runAll (start : Nat) : Nat → State → List HOp → List Json → List Jso
       | .ask q =>
         let r := query s q
         (r.1, obs r.1 (.str "ok") (ansJ q r.2))
+      | .fork => (s, obs s (.str "ok") .null)
     runAll start (i + 1) s' rest (if i < start then acc else o :: acc)
 
 def handle (j : Json) : Except String Json := do
